@@ -210,6 +210,93 @@ class CliResult(dict):
         return self["exit"]
 
 
+
+# --------------------------------------------------------------------------------------------
+# stall detection on the real kernel: a verdict that does not depend on how long anything takes
+# --------------------------------------------------------------------------------------------
+_UNTIMED = {0: "read", 1: "write", 61: "wait4", 247: "waitid"}   # x86_64; futex (202) is handled apart
+
+
+def _relevant_pids(root_pid, scratch_dir):
+    ppid = {}
+    for name in os.listdir("/proc"):
+        if not name.isdigit():
+            continue
+        try:
+            with open("/proc/%s/stat" % name) as f:
+                st = f.read()
+            ppid[int(name)] = int(st[st.rindex(")") + 2:].split()[1])
+        except (OSError, ValueError):
+            continue
+    rel = {root_pid}
+    changed = True
+    while changed:
+        changed = False
+        for p0, pp in ppid.items():
+            if pp in rel and p0 not in rel:
+                rel.add(p0)
+                changed = True
+    pref = os.path.realpath(scratch_dir) + os.sep
+    for p0 in ppid:
+        if p0 not in rel:
+            try:
+                if (os.path.realpath(os.readlink("/proc/%d/cwd" % p0)) + os.sep).startswith(pref):
+                    rel.add(p0)
+            except OSError:
+                pass
+    return rel
+
+
+def session_state(root_pid, scratch_dir):
+    """None if some relevant thread is runnable, in a timed wait or not inspectable; otherwise a hashable
+    description (thread, blocking syscall, CPU ticks) of a state in which every thread of Conductor, of its
+    descendants and of every process living in the scratch directory sleeps in an untimed blocking call."""
+    desc = []
+    writers = 0
+    for p0 in sorted(_relevant_pids(root_pid, scratch_dir)):
+        try:
+            tids = os.listdir("/proc/%d/task" % p0)
+            with open("/proc/%d/stat" % p0) as f:
+                st = f.read()
+            fields = st[st.rindex(")") + 2:].split()
+            if fields[0] == "Z":
+                desc.append((p0, "zombie"))
+                continue
+            ticks = int(fields[11]) + int(fields[12])
+            for t in sorted(tids):
+                with open("/proc/%d/task/%s/syscall" % (p0, t)) as f:
+                    sc = f.read().split()
+                if not sc or sc[0] in ("running", "-1"):
+                    return None
+                nr = int(sc[0])
+                if nr == 202:
+                    op = int(sc[2], 16) & 0x7F
+                    if op not in (0, 9) or int(sc[4], 16) != 0:   # FUTEX_WAIT / FUTEX_WAIT_BITSET without a timeout
+                        return None
+                    what = "futex"
+                elif nr in _UNTIMED:
+                    what = _UNTIMED[nr]
+                    if nr in (0, 1):
+                        fd = int(sc[1], 16)
+                        try:
+                            tgt = os.readlink("/proc/%d/fd/%d" % (p0, fd))
+                        except OSError:
+                            return None
+                        if not tgt.startswith("pipe:"):
+                            return None
+                        what += " " + tgt
+                        if nr == 1:
+                            writers += 1
+                else:
+                    return None
+                desc.append((p0, int(t), what, ticks))
+        except (OSError, ValueError, IndexError):
+            return None
+    if not writers:
+        return None
+    return tuple(desc)
+
+
 def run_cli(argv, cwd, scratch_dir, env_extra=None, stdin_text=None, timeout=120, mode="fast", **opts):
     """Returns CliResult(exit, signal, stdout, stderr, timed_out, wall)."""
     env = common.clean_env(env_extra)
@@ -253,11 +340,36 @@ def run_cli(argv, cwd, scratch_dir, env_extra=None, stdin_text=None, timeout=120
                 os._exit(97)
         deadline = t0 + timeout
         status = None
+        stall_seen, stall_n, stall_next = None, 0, t0 + 3.0
+        stalled = None
         while True:
             r, st = os.waitpid(pid, os.WNOHANG)
             if r == pid:
                 status = st
                 break
+            if opts.get("stall_check") and time.monotonic() > stall_next:
+                # six identical all-asleep states in a row (one second apart, no CPU tick consumed by anyone, a task
+                # blocked in write() on a pipe): nothing inside can ever wake anything up again
+                stall_next = time.monotonic() + 1.0
+                cur = session_state(pid, scratch_dir)
+                if cur is not None and cur == stall_seen:
+                    stall_n += 1
+                else:
+                    stall_seen, stall_n = cur, 0
+                if stall_n >= 5:
+                    stalled = [list(x) for x in cur]
+                    try:
+                        os.killpg(pid, signal.SIGKILL)
+                    except OSError:
+                        os.kill(pid, signal.SIGKILL)
+                    for x in cur:
+                        if x[0] != pid:
+                            try:
+                                os.kill(x[0], signal.SIGKILL)
+                            except OSError:
+                                pass
+                    _, status = os.waitpid(pid, 0)
+                    break
             if opts.get("poll") is not None:
                 try:
                     opts["poll"](pid)
@@ -276,6 +388,7 @@ def run_cli(argv, cwd, scratch_dir, env_extra=None, stdin_text=None, timeout=120
     res["exit"] = os.WEXITSTATUS(status) if os.WIFEXITED(status) else None
     res["signal"] = os.WTERMSIG(status) if os.WIFSIGNALED(status) else None
     res["timed_out"] = timed_out
+    res["stalled"] = stalled if mode != "exec" else None
     res["wall"] = time.monotonic() - t0
     for k, pth in (("stdout", out_path), ("stderr", err_path)):
         try:
